@@ -6,7 +6,8 @@ hint = sys.argv[3] if len(sys.argv) > 3 else ""
 for l in open('/verif/properties.jsonl'):
     p = json.loads(l)
     if p['id'] == pid: break
-wt = f"/tmp/mut-{pid}"
+import os
+wt = f"/tmp/{os.environ.get('MUT_PREFIX', 'mut')}-{pid}"
 print(f"""You are testing how robust a Rust library's behaviour is against subtle regressions. You work ONLY inside the git worktree {wt} (a checkout of the repository cameleon-rs/cameleon: GenICam / USB3 Vision camera library; crates device/, cameleon/, genapi/, impl/ (+impl/macros), gentl/). Do not look at or touch /repo or /verif. Network is unavailable; build with `--offline` (first build takes 1-2 minutes). Note: `cameleon-device`'s and `cameleon`'s u3v modules need `--features libusb` (e.g. `cargo test -p cameleon-device --features libusb --offline`, `cargo test -p cameleon --features libusb --offline --lib`); genapi: `cargo test -p cameleon-genapi --offline`; impl: `cargo test -p cameleon-impl --offline`; gentl: `cargo test -p cameleon-gentl --offline`. Code marked `#[cfg(cameleon_verif)]` is test instrumentation: ignore it, do not modify it, and do not rely on it.
 
 The property under study (it is supposed to hold for the current code):
